@@ -288,7 +288,7 @@ func (ex *Exec) concretise(t *Term, what string) int64 {
 	vals, ok := ex.concMemo[key]
 	if !ok {
 		var excl []*Term
-		for len(vals) <= 40 {
+		for len(vals) <= 160 {
 			r, m := ex.check(excl, []*Term{t})
 			if r != "sat" {
 				if r != "unsat" {
@@ -305,7 +305,7 @@ func (ex *Exec) concretise(t *Term, what string) int64 {
 			vals = append(vals, v)
 			excl = append(excl, ex.b.Not(ex.b.Eq(t, ex.b.Int(v))))
 		}
-		if len(vals) > 40 {
+		if len(vals) > 160 {
 			panic(&GoPanic{Kind: "unsupported", Msg: "unbounded concretisation of " + what + " " + t.Short()})
 		}
 		sort.Slice(vals, func(i, j int) bool { return vals[i] < vals[j] })
@@ -1576,5 +1576,3 @@ func (ex *Exec) floatOp(op token.Token, a, b F) Value {
 	}
 	return ex.normInt(c)
 }
-
-
